@@ -86,7 +86,9 @@ LEAVES = [
     ("empty_str", lambda: ""),
 ]
 LEAF_NAMES = [n for n, _ in LEAVES]
-HASHABLE_LEAVES = ["np_f32", "np_i64", "path", "big_int", "inf", "empty_tuple", "empty_str"]
+# NumPy scalars are left out of set members: CrossHair models a set as a linear scan that compares
+# members with ==, and NumPy raises on `np.int64(..) == (nested, tuple)`, which plain sets never evaluate
+HASHABLE_LEAVES = ["path", "big_int", "inf", "empty_tuple", "empty_str"]
 
 
 def leaf(i):
